@@ -38,6 +38,21 @@ func init() {
 				if len(ops) > 0 && strings.HasPrefix(ops[0], "dm.") {
 					return runDaemonWorld(c, id, ops)
 				}
+				if len(ops) > 0 && strings.HasPrefix(ops[0], "ip.loop ") {
+					// a closed-loop case: deterministic given its seed
+					var seeds []uint64
+					for _, op := range ops {
+						if s, err := strconv.ParseUint(strings.TrimPrefix(op, "ip.loop "), 10, 64); err == nil {
+							seeds = append(seeds, s)
+						}
+					}
+					runIpamLoopSeeds(c, id, seeds)
+					outs := make([]string, len(ops))
+					for i := range outs {
+						outs[i] = "ok"
+					}
+					return ops, outs
+				}
 				return ops, ipamExec(c, id, ops)
 			}})
 	}
